@@ -629,6 +629,24 @@ def _sym_strip(I, s, chars=None):
     return SStr.concat(segs) if segs else ""
 
 
+def _sym_lstrip(I, s, chars=None):
+    """lstrip() (blanks) of a structured string: the left end exactly as in strip(), the right end untouched."""
+    segs = list(s.segs)
+    if chars is not None:
+        raise Unsupported("lstrip(chars) on structured string")
+    while segs and isinstance(segs[0], Lit):
+        t = segs[0].text.lstrip()
+        if t:
+            segs[0] = Lit(t)
+            break
+        segs.pop(0)
+    if segs and isinstance(segs[0], Sym) and segs[0].lang not in ("digits+", "letters+", "noblank+"):
+        segs[0] = _fresh_any(I, "lstrip")
+    if segs and isinstance(segs[0], Fmt):
+        raise Unsupported("lstrip of a formatted field")
+    return SStr.concat(segs) if segs else ""
+
+
 def _case_map(I, s, how):
     out = []
     first = True
@@ -822,7 +840,7 @@ def _sym_endswith(I, s, suffix):
 
 
 SYMBOLIC_METHODS = {"split": _sym_split, "splitlines": _sym_splitlines, "find": _sym_find, "endswith": _sym_endswith,
-                    "strip": _sym_strip, "startswith": _sym_startswith, "isdigit": _sym_isdigit,
+                    "strip": _sym_strip, "lstrip": _sym_lstrip, "startswith": _sym_startswith, "isdigit": _sym_isdigit,
                     "lower": lambda I, s: _case_map(I, s, "lower"), "upper": lambda I, s: _case_map(I, s, "upper"),
                     "capitalize": lambda I, s: _case_map(I, s, "capitalize")}
 
